@@ -322,6 +322,27 @@ func (g *rgRunner) sync(t int, out int, rng *Rng) bool {
 	if g.dead {
 		return false
 	}
+	_, known0 := g.members[t]
+	if out == 0 && known0 && g.status != "pending" {
+		pre := g.measure()
+		asked := g.sync1(t, out, rng)
+		post := g.measure()
+		c := lexCmp(post, pre)
+		if asked && c >= 0 {
+			g.V("C20", "measure_decreases", fmt.Sprintf("elimination-free sync of table %d asked for a move but the termination measure went from %v to %v", t, pre, post))
+		} else if !asked && c > 0 {
+			g.V("C20", "measure_decreases", fmt.Sprintf("elimination-free sync of table %d asked for nothing but the termination measure rose from %v to %v", t, pre, post))
+		}
+		g.o.Count("rg.measure_checked")
+		return asked
+	}
+	return g.sync1(t, out, rng)
+}
+
+func (g *rgRunner) sync1(t int, out int, rng *Rng) bool {
+	if g.dead {
+		return false
+	}
 	g.begin()
 	ms, known := g.members[t]
 	if known {
@@ -419,6 +440,83 @@ func (g *rgRunner) sync(t int, out int, rng *Rng) bool {
 		g.checkConservation(line)
 	}
 	return asked
+}
+
+// measure: the termination measure of Proofs/RegMeasure.lean (theorem RSys.quiet_step: every
+// elimination-free sync that asks its table for something strictly lowers it, every other one
+// never raises it), evaluated on the implementation's own counters.
+func (g *rgRunner) measure() [6]int {
+	pc := g.r.GetPlayerCount()
+	T := g.r.GetTableCount()
+	R := 0
+	if g.max > 0 {
+		R = (pc + g.max - 1) / g.max
+	}
+	F := 0
+	if R > 0 {
+		F = pc / R
+	}
+	var v [6]int
+	pos := func(x int) int {
+		if x < 0 {
+			return 0
+		}
+		return x
+	}
+	min1 := func(x int) int {
+		if x > 1 {
+			return 1
+		}
+		return x
+	}
+	for id := range g.members {
+		t := g.r.GetTable(itoa(int64(id)))
+		if t == nil {
+			continue
+		}
+		c, q := t.PlayerCount, t.Required
+		d := min1(pos(F - c))
+		v[1] += d
+		if c+q < F {
+			v[2] += pos(q)
+		}
+		a := min1(pos(1 - q))
+		if d < a {
+			a = d
+		}
+		v[3] += a
+		m := c
+		if F > m {
+			m = F
+		}
+		v[4] += pos(c + q - m)
+		if c > F {
+			v[5] += c - F
+		} else {
+			v[5] += F - c
+		}
+	}
+	if v[1] == 0 && T == R {
+		return [6]int{}
+	}
+	if T > R {
+		v[0] = T - R
+	} else {
+		v[0] = R - T
+	}
+	return v
+}
+
+func lexCmp(a, b [6]int) int {
+	for i := range a {
+		if a[i] != b[i] {
+			if a[i] < b[i] {
+				return -1
+			}
+			return 1
+		}
+	}
+	return 0
 }
 
 func (g *rgRunner) tableIDs() []int {
